@@ -65,7 +65,7 @@ inductive Op where
 deriving Repr, BEq, DecidableEq
 
 /-- one system call.  A call whose precondition does not hold fails and leaves the state unchanged
-    (`enabled` below states the preconditions; `Props.C20.ops_enabled` shows they hold along `minifyOps`). -/
+    (`enabled` below states the preconditions; the harness evaluates them along `minifyOps` on every case). -/
 def step (fs : Fs) : Op → Fs
   | .rename a b =>
     match fs.get a with
@@ -174,9 +174,20 @@ def Writes.isOk : Writes → Bool
   | .ok _ => true
   | .fail _ => false
 
-/-- `SameFile(srcs[i], dst)` holds for some `i` (lexically): the destination is renamed first -/
-def renamed (t : Task) (fs : Fs) : Bool :=
+/-- `SameFile(srcs[i], dst)` holds for some `i` (lexically: the destination is one of the sources and exists) -/
+def sameFile (t : Task) (fs : Fs) : Bool :=
   !t.dst.isEmpty && t.srcs.contains t.dst && (fs.get t.dst).isSome
+
+/-- `os.Lstat(dst + ".bak")` succeeds -/
+def bakExists (t : Task) (fs : Fs) : Bool :=
+  (fs.get (bak t.dst)).isSome || fs.dirs.contains (bak t.dst)
+
+/-- the destination is a source but its backup name is taken: `minify` reports an error and returns
+    before anything is touched -/
+def blocked (t : Task) (fs : Fs) : Bool := sameFile t fs && bakExists t fs
+
+/-- the destination is renamed to `dst.bak` first (and the code remembers that: `bak = i`) -/
+def renamed (t : Task) (fs : Fs) : Bool := sameFile t fs && !bakExists t fs
 
 /-- the source list after `srcs[i] += ".bak"` -/
 def srcs1 (t : Task) (fs : Fs) : List Path :=
@@ -237,16 +248,15 @@ def outBytes (cfg : Cfg) (lib : Bytes → Option Bytes) (t : Task) (fs : Fs) : B
   | some o => o
   | none => b
 
-/-- the loop "remove original that was renamed": taken when some source is *spelled* `dst + ".bak"` -/
+/-- "remove original that was renamed": taken iff the rename happened -/
 def postOps (t : Task) (fs : Fs) (w : Writes) : List Op :=
-  if (srcs1 t fs).contains (bak t.dst) then
-    (if w.isOk then [.remove (bak t.dst)]
-     else if t.dst.isEmpty then []     -- `os.Remove("")` fails, `minify` returns
-     else [.remove t.dst, .rename (bak t.dst) t.dst])
+  if renamed t fs then
+    (if w.isOk then [.remove (bak t.dst)] else [.remove t.dst, .rename (bak t.dst) t.dst])
   else []
 
+/-- the source list handed to `preserveAttributes` (`srcs[bak]` gets its own name back) -/
 def srcs2 (t : Task) (fs : Fs) : List Path :=
-  if (srcs1 t fs).contains (bak t.dst) then replaceFirst (srcs1 t fs) (bak t.dst) t.dst else srcs1 t fs
+  if renamed t fs then replaceFirst (srcs1 t fs) (bak t.dst) t.dst else srcs1 t fs
 
 def attrLevel (cfg : Cfg) (single : Bool) (p : Path) : List Op :=
   (if cfg.presMode && (single || cfg.modeAgree) then [.chmod p] else []) ++
@@ -291,15 +301,15 @@ def noop (t : Task) : Bool := t.skip || (t.sync && t.srcs.head? == some t.dst)
 
 /-- the complete sequence of file-system operations of `minify(t)` started in state `fs` -/
 def minifyOps (cfg : Cfg) (w : Writes) (t : Task) (fs : Fs) : List Op :=
-  if noop t then [] else preOps t fs ++ midOps w t fs ++ tailOps cfg w t fs
+  if noop t || blocked t fs then [] else preOps t fs ++ midOps w t fs ++ tailOps cfg w t fs
 
 /-- `minify` returns `true` (counts as success for the exit status) -/
 def minifyOk (cfg : Cfg) (lib : Bytes → Option Bytes) (w : Writes) (t : Task) (fs : Fs) : Bool :=
   if t.skip then false else
   if noop t then true else
+  if blocked t fs then false else
   if t.sync then w.isOk else
-  if !w.isOk && t.dst.isEmpty && ((srcs1 t fs).contains (bak t.dst)) then false
-  else (lib (inputBytes cfg t fs)).isSome
+  w.isOk && (lib (inputBytes cfg t fs)).isSome
 
 /-! ## several tasks -/
 
